@@ -1979,7 +1979,6 @@ class MergedResult(IteratorResult[Unpack[_Ts]]):
 
     """
 
-    closed = False
     rowcount: Optional[int]
 
     def __init__(
@@ -2008,5 +2007,4 @@ class MergedResult(IteratorResult[Unpack[_Ts]]):
     def _soft_close(self, hard: bool = False, **kw: Any) -> None:
         for r in self._results:
             r._soft_close(hard=hard, **kw)
-        if hard:
-            self.closed = True
+        super()._soft_close(hard=hard, **kw)
